@@ -29,6 +29,15 @@
 #define V_IS_FRESH(p, n) __CPROVER_is_fresh((p), (n))
 #endif
 
+/* A buffer handed to the code under proof is an object OF ITS OWN with exactly n bytes, filled from the input record.
+ * (As a member of the input record an out-of-bounds access lands in the neighbouring member and is not flagged - that hid
+ * the station-walk finding of derive_session_event for a while.) */
+#ifndef V_REPLAY
+void *malloc(__CPROVER_size_t);
+void *memcpy(void *, const void *, __CPROVER_size_t);
+#endif
+#define V_EXACT_OBJECT(ptr, src, n) uint8_t *ptr = (uint8_t *)malloc(n); V_ASSUME(ptr != (uint8_t *)0); memcpy(ptr, (src), (n))
+
 /* a stack object whose padding must be defined in the native build */
 #ifdef V_REPLAY
 #define V_ZERO(x) memset(&(x), 0, sizeof(x))
